@@ -93,8 +93,9 @@ class _Norm(ast.NodeTransformer):
        * a local zero-argument helper `def h(): return e` of the function = its expression (`h()` -> `e`, a bare `h`
          stored as a dictionary value -> `lambda: e`)."""
 
-    def __init__(self, helpers):
+    def __init__(self, helpers, mod_funcs=None):
         self.helpers = helpers
+        self.mod_funcs = mod_funcs or {}
 
     @staticmethod
     def _tup(n):
@@ -122,6 +123,10 @@ class _Norm(ast.NodeTransformer):
         self.generic_visit(node)
         if isinstance(node.func, ast.Name) and node.func.id in self.helpers and not node.args and not node.keywords:
             return copy.deepcopy(self.helpers[node.func.id])
+        if isinstance(node.func, ast.Name) and node.func.id in self.mod_funcs and not node.keywords:
+            params, expr = self.mod_funcs[node.func.id]
+            if len(params) == len(node.args) and not any(isinstance(a, ast.Starred) for a in node.args):
+                return _Subst(dict(zip(params, node.args))).visit(copy.deepcopy(expr))
         return node
 
     def visit_Dict(self, node):
@@ -137,25 +142,82 @@ class _Norm(ast.NodeTransformer):
         return node
 
 
-def _normalise(fn):
+class _Subst(ast.NodeTransformer):
+    """parameter -> argument expression"""
+
+    def __init__(self, mapping):
+        self.mapping = mapping
+
+    def visit_Name(self, node):
+        if isinstance(node.ctx, ast.Load) and node.id in self.mapping:
+            return copy.deepcopy(self.mapping[node.id])
+        return node
+
+
+def _single_return(st):
+    """the expression of a function whose body is (a docstring and) one `return e`, else None"""
+    b = [x for x in st.body if not (isinstance(x, ast.Expr) and isinstance(x.value, ast.Constant))]
+    if len(b) == 1 and isinstance(b[0], ast.Return) and b[0].value is not None and not st.decorator_list:
+        return b[0].value
+    return None
+
+
+def _module_env(mod):
+    """module-level single assignments `name = expr` and single-return functions with plain positional parameters"""
+    consts, funcs = {}, {}
+    for st in mod.body:
+        if isinstance(st, ast.Assign) and len(st.targets) == 1 and isinstance(st.targets[0], ast.Name):
+            consts[st.targets[0].id] = st.value
+        elif isinstance(st, ast.FunctionDef):
+            a = st.args
+            e = _single_return(st)
+            if e is not None and not (a.vararg or a.kwarg or a.kwonlyargs or a.defaults or a.posonlyargs):
+                funcs[st.name] = ([x.arg for x in a.args], e)
+    return consts, funcs
+
+
+def _dfs(node):
+    """pre-order traversal in field order (independent of line numbers, which inlining disturbs)"""
+    yield node
+    for c in ast.iter_child_nodes(node):
+        yield from _dfs(c)
+
+
+def _str_collection(n, consts, depth=0):
+    """strings of a list/tuple/set display, of frozenset/set/tuple/list(<display>), or of a module-level name bound to
+    one; else None"""
+    if _const_strs(n) is not None:
+        return _const_strs(n)
+    if isinstance(n, ast.Call) and isinstance(n.func, ast.Name) and n.func.id in ("frozenset", "set", "tuple", "list") \
+            and len(n.args) == 1 and not n.keywords:
+        return _str_collection(n.args[0], consts, depth + 1)
+    if isinstance(n, ast.Name) and n.id in consts and depth < 4:
+        return _str_collection(consts[n.id], consts, depth + 1)
+    return None
+
+
+def _normalise(fn, mod=None):
     """a normalised deep copy of the function `fn` (see _Norm); local zero-argument single-return helpers are inlined
-    and removed"""
+    and removed; calls of module-level single-return functions are replaced by their expression (parameters
+    substituted)"""
     fn = copy.deepcopy(fn)
     helpers = {}
     body = []
     for st in fn.body:
         if isinstance(st, ast.FunctionDef) and not (st.args.args or st.args.posonlyargs or st.args.kwonlyargs
                                                      or st.args.vararg or st.args.kwarg) and not st.decorator_list:
-            b = [x for x in st.body if not (isinstance(x, ast.Expr) and isinstance(x.value, ast.Constant))]
-            if len(b) == 1 and isinstance(b[0], ast.Return) and b[0].value is not None:
-                helpers[st.name] = b[0].value
+            e = _single_return(st)
+            if e is not None:
+                helpers[st.name] = e
                 continue
         body.append(st)
     fn.body = body
+    mod_funcs = _module_env(mod)[1] if mod is not None else {}
     for _ in range(3):      # helpers may use each other
-        norm = _Norm(helpers)
+        norm = _Norm(helpers, mod_funcs)
         helpers = {k: norm.visit(copy.deepcopy(v)) for k, v in helpers.items()}
-    fn = _Norm(helpers).visit(fn)
+        mod_funcs = {k: (ps, norm.visit(copy.deepcopy(e))) for k, (ps, e) in mod_funcs.items()}
+    fn = _Norm(helpers, mod_funcs).visit(fn)
     ast.fix_missing_locations(fn)
     return fn
 
@@ -167,19 +229,26 @@ def lift_python():
         cons = ast.parse(open(os.path.join(src, "Constituent.py"), encoding="utf-8").read())
     except (OSError, SyntaxError) as e:
         _err("cannot parse the Python source: %s" % e)
-    df = _normalise(_find_func(term, "Terminal", "dateFormat"))
+    df = _normalise(_find_func(term, "Terminal", "dateFormat"), term)
+    tconsts = _module_env(term)[0]
     res = {}
-    # fmtRE = re.compile(r"...")
-    for n in ast.walk(df):
-        if isinstance(n, ast.Assign) and len(n.targets) == 1 and isinstance(n.targets[0], ast.Name) \
-                and n.targets[0].id == "fmtRE" and isinstance(n.value, ast.Call) and n.value.args \
-                and isinstance(n.value.args[0], ast.Constant):
-            res["fmtRE"] = n.value.args[0].value
+    # the pattern of the regular expression whose .finditer scans the format: a local or module-level
+    # `name = re.compile(<literal>)`, or re.compile(<literal>).finditer(...) directly
+    local = {n.targets[0].id: n.value for n in ast.walk(df)
+             if isinstance(n, ast.Assign) and len(n.targets) == 1 and isinstance(n.targets[0], ast.Name)}
+    for n in _dfs(df):
+        if isinstance(n, ast.Call) and isinstance(n.func, ast.Attribute) and n.func.attr == "finditer":
+            v = n.func.value
+            if isinstance(v, ast.Name):
+                v = local.get(v.id, tconsts.get(v.id))
+            if isinstance(v, ast.Call) and isinstance(v.func, ast.Attribute) and v.func.attr == "compile" and v.args \
+                    and isinstance(v.args[0], ast.Constant) and isinstance(v.args[0].value, str):
+                res["fmtRE"] = v.args[0].value
     if "fmtRE" not in res:
-        _err("fmtRE = re.compile(<literal>) not found in Terminal.dateFormat")
+        _err("the regular expression scanned with .finditer in Terminal.dateFormat is not a re.compile(<literal>)")
     # the placeholder dictionary: the dict literal whose values are all lambdas
     ph = None
-    for n in ast.walk(df):
+    for n in _dfs(df):
         if isinstance(n, ast.Dict) and n.keys and all(isinstance(v, ast.Lambda) for v in n.values) \
                 and all(isinstance(k, ast.Constant) and isinstance(k.value, str) for k in n.keys):
             ph = [(k.value, ast.unparse(v.body)) for k, v in zip(n.keys, n.values)]
@@ -188,7 +257,7 @@ def lift_python():
     res["placeholders"] = ph
     # list literals of field names and string constants compared with / assigned to timeFields
     lists = []
-    for n in ast.walk(df):
+    for n in _dfs(df):
         if _const_strs(n) is not None:
             lists.append(_const_strs(n))
     date_l = [l for l in lists if "year" in l]
@@ -197,7 +266,7 @@ def lift_python():
         _err("field lists of Terminal.dateFormat not found (%r)" % (lists,))
     res["dateFields"], res["timeFields"] = date_l[0], time_l[0]
     tf = []
-    for n in ast.walk(df):
+    for n in _dfs(df):
         if isinstance(n, ast.Compare) and isinstance(n.left, ast.Name) and n.left.id == "timeFields":
             tf += ["==" + c.value for c in n.comparators if isinstance(c, ast.Constant)]
         if isinstance(n, ast.Assign) and isinstance(n.targets[0], ast.Name) and n.targets[0].id == "timeFields" \
@@ -206,18 +275,14 @@ def lift_python():
     res["natSimplification"] = tf
     # separators of the two joins and the relative-time statements (source text)
     rel = []
-    for n in ast.walk(df):
+    for n in _dfs(df):
         if isinstance(n, ast.Assign) and isinstance(n.targets[0], ast.Name) and n.targets[0].id in ("diffDays", "sign", "dateS", "fmt", "fmts"):
             rel.append(ast.unparse(n))
         if isinstance(n, ast.Return):
             rel.append(ast.unparse(n))
     res["statements"] = sorted(set(rel))
     # the tests of every `if` / `elif` / conditional expression of dateFormat, in source order
-    conds = []
-    for n in ast.walk(df):
-        if isinstance(n, (ast.If, ast.IfExp)):
-            conds.append((n.lineno, n.col_offset, ast.unparse(n.test)))
-    res["conditions"] = [c for _, _, c in sorted(conds)]
+    res["conditions"] = [ast.unparse(n.test) for n in _dfs(df) if isinstance(n, (ast.If, ast.IfExp))]
     # the DT branch of Terminal.real() and the DT factory of utils.py
     rl = _find_func(term, "Terminal", "real")
     real_dt = None
@@ -247,17 +312,23 @@ def lift_python():
     if dflt is None or not all(isinstance(v, bool) for _, v in dflt):
         _err("DT default dOpt dictionary not found in Terminal.setLemma")
     res["defaults"] = dflt
-    # allowedKeys of the DT branch of Constituent.dOpt (the first `allowedKeys = [...]` containing "rtime")
+    # the allowed dOpt keys of a DT, found BY CONTENT: the string collection containing "rtime" that Constituent.dOpt
+    # assigns (under any name) or tests with in / not in (a display, or a name bound at module level)
     do = _find_func(cons, "Constituent", "dOpt")
+    cconsts = _module_env(cons)[0]
     ak = None
-    for n in ast.walk(do):
-        if isinstance(n, ast.Assign) and isinstance(n.targets[0], ast.Name) and n.targets[0].id == "allowedKeys" \
-                and _const_strs(n.value) is not None:
-            vals = _const_strs(n.value)
-            if "rtime" in vals:
+    for n in _dfs(do):
+        cands = []
+        if isinstance(n, ast.Assign):
+            cands.append(n.value)
+        if isinstance(n, ast.Compare):
+            cands += [c for op, c in zip(n.ops, n.comparators) if isinstance(op, (ast.In, ast.NotIn))]
+        for c in cands:
+            vals = _str_collection(c, cconsts)
+            if vals is not None and "rtime" in vals and ak is None:
                 ak = vals
     if ak is None:
-        _err("allowedKeys of DT not found in Constituent.dOpt")
+        _err("no string collection containing 'rtime' is assigned or tested with `in` in Constituent.dOpt")
     res["allowedKeys"] = ak
     # the ISO pattern of parseDateString
     pd = _find_func(cons, "Constituent", "parseDateString")
